@@ -3,6 +3,7 @@ package all
 
 import (
 	_ "verifsim/props/c07"
+	_ "verifsim/props/c11"
 	_ "verifsim/props/c12"
 	_ "verifsim/props/c13"
 	_ "verifsim/props/c14"
